@@ -30,6 +30,7 @@ type c18Op struct {
 	Dt   int64  `json:"dt"`
 	Used int32  `json:"used"`
 	Lvl  int32  `json:"lvl"`
+	Wc   bool   `json:"wc"` // the report also carries the global-count item
 }
 
 type c18Case struct {
@@ -45,6 +46,8 @@ type c18Cond struct {
 	Q   int32 `json:"q"`
 	Lab B     `json:"lab"`
 	HasLab bool `json:"haslab"`
+	Qc     int32 `json:"qc"`
+	HasQc  bool  `json:"hasqc"`
 }
 type c18Cnt struct {
 	U       B       `json:"u"`
@@ -66,6 +69,7 @@ type c18Step struct {
 	Clients []B       `json:"clients"`
 	Conds   []c18Cond `json:"conds"`
 	Sums    []c18Sum  `json:"sums"`
+	SumC    []c18Sum  `json:"sumc"`
 	Cnts    []c18Cnt  `json:"cnts"`
 }
 
@@ -98,7 +102,10 @@ func runC18(raw json.RawMessage) interface{} {
 		must(rig.v.Handler(cl))
 		ups = append(ups, u.S())
 	}
-	sort.Strings(ups)
+	known := map[string]bool{}
+	for _, u := range ups {
+		known[u] = true
+	}
 	nowM := int64(0)
 	hbM := map[string]int64{}
 	quota := map[[2]string]int32{}
@@ -123,6 +130,16 @@ func runC18(raw json.RawMessage) interface{} {
 			must(rig.rl.Heartbeat(i))
 		case "advance":
 			nowM += op.Dt
+		case "clustergone":
+			rig.delCluster(c18Cluster(u, c.Amax, c.Cmax))
+		case "clusterset":
+			cl := c18Cluster(u, c.Amax, c.Cmax)
+			rig.setCluster(cl)
+			must(rig.v.Handler(cl))
+			if !known[u] {
+				known[u] = true
+				ups = append(ups, u)
+			}
 		case "report":
 			cond := &proxyv1alpha1.RateLimitCondition{
 				ObjectMeta: metav1.ObjectMeta{Name: limitutil.GenerateRateLimitConditionName(u, i)},
@@ -147,11 +164,30 @@ func runC18(raw json.RawMessage) interface{} {
 					}},
 				},
 			}
+			if op.Wc {
+				cond.Spec.LimitItemConfigurations = append(cond.Spec.LimitItemConfigurations, proxyv1alpha1.RateLimitItemConfiguration{
+					Name:     "count",
+					Strategy: proxyv1alpha1.GlobalCountLimit,
+					LimitItemDetail: proxyv1alpha1.LimitItemDetail{
+						MaxRequestsInflight: &proxyv1alpha1.MaxRequestsInflightFlowControlSchema{Max: 0},
+					},
+				})
+				cond.Status.LimitItemStatuses = append(cond.Status.LimitItemStatuses, proxyv1alpha1.RateLimitItemStatus{
+					Name: "count",
+					LimitItemDetail: proxyv1alpha1.LimitItemDetail{
+						MaxRequestsInflight: &proxyv1alpha1.MaxRequestsInflightFlowControlSchema{Max: op.Used},
+					},
+				})
+			}
 			out, err := rig.rl.UpdateRateLimitConditionStatus(u, cond)
 			st.Res = classifyLimErr(err)
-			if err == nil && len(out.Spec.LimitItemConfigurations) > 0 && out.Spec.LimitItemConfigurations[0].MaxRequestsInflight != nil {
-				st.Q = out.Spec.LimitItemConfigurations[0].MaxRequestsInflight.Max
-				quota[[2]string{u, i}] = st.Q
+			if err == nil {
+				for _, it := range out.Spec.LimitItemConfigurations {
+					if it.Name == "alloc" && it.MaxRequestsInflight != nil {
+						st.Q = it.MaxRequestsInflight.Max
+						quota[[2]string{u, i}] = st.Q
+					}
+				}
 			}
 		case "acquire":
 			reqID++
@@ -199,21 +235,33 @@ func runC18(raw json.RawMessage) interface{} {
 		conds, _ := rig.v.StoreConditions(0)
 		st.Conds = []c18Cond{}
 		st.Sums = []c18Sum{}
+		st.SumC = []c18Sum{}
 		for _, cd := range conds {
 			if cd.Name == cd.Spec.UpstreamCluster+".state" && cd.Spec.Instance == "" {
+				sum := int32(0)
 				for _, it := range cd.Status.LimitItemStatuses {
 					if it.Name == "alloc" && it.MaxRequestsInflight != nil {
-						st.Sums = append(st.Sums, c18Sum{toB(cd.Spec.UpstreamCluster), it.MaxRequestsInflight.Max})
+						sum = it.MaxRequestsInflight.Max
+					}
+					if it.Name == "count" && it.MaxRequestsInflight != nil {
+						st.SumC = append(st.SumC, c18Sum{toB(cd.Spec.UpstreamCluster), it.MaxRequestsInflight.Max})
 					}
 				}
+				st.Sums = append(st.Sums, c18Sum{toB(cd.Spec.UpstreamCluster), sum})
 				continue
 			}
-			q := int32(-1)
-			if len(cd.Spec.LimitItemConfigurations) > 0 && cd.Spec.LimitItemConfigurations[0].MaxRequestsInflight != nil {
-				q = cd.Spec.LimitItemConfigurations[0].MaxRequestsInflight.Max
+			cc := c18Cond{U: toB(cd.Spec.UpstreamCluster), I: toB(cd.Spec.Instance), Q: -1}
+			for _, it := range cd.Spec.LimitItemConfigurations {
+				if it.Name == "alloc" && it.MaxRequestsInflight != nil {
+					cc.Q = it.MaxRequestsInflight.Max
+				}
+				if it.Name == "count" && it.MaxRequestsInflight != nil {
+					cc.Qc, cc.HasQc = it.MaxRequestsInflight.Max, true
+				}
 			}
 			lab, has := cd.Labels[limiter.RateLimitConditionInstanceLabel]
-			st.Conds = append(st.Conds, c18Cond{toB(cd.Spec.UpstreamCluster), toB(cd.Spec.Instance), q, toB(lab), has})
+			cc.Lab, cc.HasLab = toB(lab), has
+			st.Conds = append(st.Conds, cc)
 		}
 		sort.Slice(st.Conds, func(a, b int) bool {
 			if st.Conds[a].U.S() != st.Conds[b].U.S() {
@@ -222,6 +270,8 @@ func runC18(raw json.RawMessage) interface{} {
 			return st.Conds[a].I.S() < st.Conds[b].I.S()
 		})
 		sort.Slice(st.Sums, func(a, b int) bool { return st.Sums[a].U.S() < st.Sums[b].U.S() })
+		sort.Slice(st.SumC, func(a, b int) bool { return st.SumC[a].U.S() < st.SumC[b].U.S() })
+		sort.Strings(ups)
 		st.Cnts = []c18Cnt{}
 		store := rig.v.Stores()[0]
 		for _, un := range ups {
